@@ -13,10 +13,14 @@ open DI.Py
 /-- dataiter/list_of_dicts.py: ListOfDicts.__init__ (sha256 of the function source: d429aaa4dc181dd1) -/
 def ListOfDicts_init (truth : Term → Bool) : Out :=
   let eff0 : Term := (Term.app "super().__init__" [(if truth (Term.sym "as_is") then (Term.sym "dicts") else (Term.app "map" [(Term.sym "AttributeDict"), (Term.sym "dicts")]))]);
-  let eff1 : Term := (Term.app "setattr" [(Term.sym "self"), (Term.sym "_group_keys"), (Term.app "tuple" [])]);
-  let eff2 : Term := (Term.app "setattr" [(Term.sym "self"), (Term.sym "_obsolete"), (Term.sym "False")]);
-  let eff3 : Term := (Term.app "setattr" [(Term.sym "self"), (Term.sym "_obsolete_warned"), (Term.sym "False")]);
-  let eff4 : Term := (Term.app "setattr" [(Term.sym "self"), (Term.sym "_predecessor"), (Term.sym "None")]);
+  let attr1_1' : Term := (Term.app "tuple" []);
+  let eff1 : Term := (Term.app "setattr" [(Term.sym "self"), (Term.sym "_group_keys"), attr1_1']);
+  let attr2_1' : Term := (Term.sym "False");
+  let eff2 : Term := (Term.app "setattr" [(Term.sym "self"), (Term.sym "_obsolete"), attr2_1']);
+  let attr3_1' : Term := (Term.sym "False");
+  let eff3 : Term := (Term.app "setattr" [(Term.sym "self"), (Term.sym "_obsolete_warned"), attr3_1']);
+  let attr4_1' : Term := (Term.sym "None");
+  let eff4 : Term := (Term.app "setattr" [(Term.sym "self"), (Term.sym "_predecessor"), attr4_1']);
   Out.fall [eff0, eff1, eff2, eff3, eff4]
 
 /-- the decorators of dataiter/list_of_dicts.py: ListOfDicts.__init__, outermost first -/
@@ -25,8 +29,10 @@ def ListOfDicts_init_decorators : List String := []
 /-- dataiter/list_of_dicts.py: ListOfDicts._new (sha256 of the function source: 896a760aaaf7e011) -/
 def ListOfDicts_new (truth : Term → Bool) : Out :=
   let new' : Term := (Term.app ".__class__" [(Term.sym "self"), (Term.sym "dicts"), (Term.app "=as_is" [(Term.sym "True")])]);
-  let eff0 : Term := (Term.app "setattr" [new', (Term.sym "_group_keys"), (Term.app "._group_keys" [(Term.sym "self")])]);
-  let eff1 : Term := (Term.app "setattr" [new', (Term.sym "_predecessor"), (Term.sym "self")]);
+  let attr0_1' : Term := (Term.app "._group_keys" [(Term.sym "self")]);
+  let eff0 : Term := (Term.app "setattr" [new', (Term.sym "_group_keys"), attr0_1']);
+  let attr1_1' : Term := (Term.sym "self");
+  let eff1 : Term := (Term.app "setattr" [new', (Term.sym "_predecessor"), attr1_1']);
   Out.ret [eff0, eff1] new'
 
 /-- the decorators of dataiter/list_of_dicts.py: ListOfDicts._new, outermost first -/
@@ -35,7 +41,8 @@ def ListOfDicts_new_decorators : List String := []
 /-- dataiter/list_of_dicts.py: ListOfDicts.__deepcopy__ (sha256 of the function source: 2115d0b9f19d77b6) -/
 def ListOfDicts_deepcopy (truth : Term → Bool) : Out :=
   let new' : Term := (Term.app ".__class__" [(Term.sym "self"), (Term.app "map" [(Term.sym "copy.deepcopy"), (Term.sym "self")]), (Term.app "=as_is" [(Term.sym "True")])]);
-  let eff0 : Term := (Term.app "setattr" [new', (Term.sym "_group_keys"), (Term.app "._group_keys" [(Term.sym "self")])]);
+  let attr0_1' : Term := (Term.app "._group_keys" [(Term.sym "self")]);
+  let eff0 : Term := (Term.app "setattr" [new', (Term.sym "_group_keys"), attr0_1']);
   Out.ret [eff0] new'
 
 /-- the decorators of dataiter/list_of_dicts.py: ListOfDicts.__deepcopy__, outermost first -/
@@ -52,10 +59,12 @@ def ListOfDicts_copy_decorators : List String := []
 def ListOfDicts_mark_obsolete (truth : Term → Bool) : Out :=
   if truth (Term.app "isinstance" [(Term.app "._predecessor" [(Term.sym "self")]), (Term.sym "ListOfDicts")]) then
     let eff0 : Term := (Term.app "._mark_obsolete" [(Term.app "._predecessor" [(Term.sym "self")])]);
-    let eff1 : Term := (Term.app "setattr" [(Term.sym "self"), (Term.sym "_obsolete"), (Term.sym "True")]);
+    let attr1_2' : Term := (Term.sym "True");
+    let eff1 : Term := (Term.app "setattr" [(Term.sym "self"), (Term.sym "_obsolete"), attr1_2']);
     Out.fall [eff0, eff1]
   else
-    let eff0 : Term := (Term.app "setattr" [(Term.sym "self"), (Term.sym "_obsolete"), (Term.sym "True")]);
+    let attr0_2' : Term := (Term.sym "True");
+    let eff0 : Term := (Term.app "setattr" [(Term.sym "self"), (Term.sym "_obsolete"), attr0_2']);
     Out.fall [eff0]
 
 /-- the decorators of dataiter/list_of_dicts.py: ListOfDicts._mark_obsolete, outermost first -/
@@ -66,7 +75,8 @@ def ListOfDicts_getattribute (truth : Term → Bool) : Out :=
   let value' : Term := (Term.app "super().__getattribute__" [(Term.sym "name")]);
   if (truth (Term.app "NotIn" [(Term.sym "'obsolete'"), (Term.sym "name")]) && truth (Term.app "callable" [value']) && truth (Term.app "._obsolete" [(Term.sym "self")]) && (!truth (Term.app "._obsolete_warned" [(Term.sym "self")]))) then
     let eff0 : Term := (Term.app "print" [(Term.sym "'Warning: A successor has modified the shared dicts'")]);
-    let eff1 : Term := (Term.app "setattr" [(Term.sym "self"), (Term.sym "_obsolete_warned"), (Term.sym "True")]);
+    let attr1_2' : Term := (Term.sym "True");
+    let eff1 : Term := (Term.app "setattr" [(Term.sym "self"), (Term.sym "_obsolete_warned"), attr1_2']);
     Out.ret [eff0, eff1] value'
   else
     Out.ret [] value'
